@@ -1,7 +1,22 @@
 (** C09 — every record appended by a worklist method conforms to the Tecan worklist grammar of its record
     type and, decoded by the independent parser of Spec/Gwl.v, returns exactly the arguments supplied;
     a call whose arguments cannot be represented raises and appends nothing.
-    Statements only; proofs live in Proofs/RecordsProofs.v and Proofs/TextExtraProofs.v.
+    Statements only; proofs live in Proofs/RecordsProofs.v, Proofs/TextExtraProofs.v and (program level:
+    C09_grammar_run, C09_grammar_run_any) Proofs/GrammarRunProofs.v.
+
+    FLOAT PRINTER (REVIEW2 N5) - applies to C09_decimal_value, C09_roundtrip_R_float,
+    C09_reagent_float_end_to_end, to the float case of C09_distribute_end_to_end and to the float case of
+    C01_run_text_exact / _bound / _checked.  The model's [pyrepr_float] prints the EXACT terminating decimal
+    expansion of a float; the library prints the SHORTEST decimal that reads back to the same float (Python
+    [repr]; since /repo commit 25036c3 written with numpy.format_float_positional, never in scientific
+    notation).  The two texts are the same string whenever the exact expansion has at most 15 significant
+    digits - in particular on the domain of the correspondence check (k / 2^e, e <= 10; see
+    C09_short_expansion_example) - and differ otherwise (0.1: library "0.1", model the 55-digit expansion,
+    C09_long_expansion_example).  The three theorems quantify over ALL non-negative dyadic q and are facts
+    about the MODEL's text; they carry over to the library's text only under the side condition "the exact
+    expansion of q has at most 15 significant digits", which is not a hypothesis of the Coq statements
+    because the Coq proof does not need it.  For a float outside that condition the library's text denotes a
+    number within half an ulp (relative 2^-53) of the float, not the float itself (oracle-side fact).
 
     FINDING F21 (review item M2), FIXED in /repo by commit 26768d9.  [set_diti] did not validate its index and
     [reagent_distribution] validated neither [diti_reuse] nor [multi_disp]; with negative integers they
@@ -16,8 +31,8 @@
     C09_reagent_ok: [r_nosep f /\ r_nonneg f] holds of every record [reagent_distribution] appends).
 
     The value of a written decimal ([dec_val], [frac_val]) is defined in Spec/CmdParse.v. *)
-From Robo Require Import Prelude Str Wells Utils Labware Tips Records Params Worklist Gwl CmdParse RecordsProofs
-  TextExtraProofs RefinementProofs RefinementTextProofs.
+From Robo Require Import Prelude Str Wells Utils Labware Tips Records Params Worklist EvoCmd Program Gwl CmdParse
+  RecordsProofs TextExtraProofs RefinementProofs RefinementTextProofs GrammarRunProofs.
 From Coq Require Import Sorted Permutation.
 Local Open Scope string_scope.
 
@@ -413,6 +428,29 @@ Print Assumptions C09_oneline_R.
 (* ------------------------------------------------------------------------------------------ *)
 (** ** C09_roundtrip_R_float: the value of the volume field (review item M3) *)
 
+(** !! FLOAT PRINTER CAVEAT (REVIEW2 N5, details in the header of this file) !!
+    The next theorem, C09_roundtrip_R_float and C09_reagent_float_end_to_end are about the text the MODEL
+    writes: [pyrepr_float q] is the exact terminating expansion of q.  Python's [repr] / numpy's
+    format_float_positional write the shortest round-trip notation.  The two coincide when the expansion
+    has at most 15 significant digits (harness domain k / 2^e, e <= 10: C09_short_expansion_example below);
+    for other floats (0.1: C09_long_expansion_example) the theorems do not speak about the library's text. *)
+
+(** on the harness grid the model's text is Python's repr: 12.5, 2^-10, 1024 - 2^-10 ... *)
+Example C09_short_expansion_example :
+  pyrepr_float (25 # 2) = "12.5" /\
+  pyrepr_float (1 # 1024) = "0.0009765625" /\
+  pyrepr_float (1048575 # 1024) = "1023.9990234375".
+Proof. vm_compute. repeat split. Qed.
+
+(** ... and the limit: the float nearest to 0.1 is 3602879701896397 / 2^55; Python writes "0.1", the model
+    the 55 digits of the exact value (both read back to that float; only the model's text has its VALUE) *)
+Example C09_long_expansion_example :
+  (36028797018963968 = 2 ^ 55)%positive /\
+  pyrepr_float (3602879701896397 # 36028797018963968) =
+    "0.1000000000000000055511151231257827021181583404541015625" /\
+  pyrepr_float (3602879701896397 # 36028797018963968) <> "0.1".
+Proof. vm_compute. repeat split. discriminate. Qed.
+
 (** the decimal the model writes for a float volume ([pyrepr_float]: the exact terminating expansion of a
     non-negative dyadic rational), read back with the independent [parse_decimal] and valued digit by digit
     with [dec_val], is the number itself.  Every binary64 float is dyadic; Python's [repr] is this exact
@@ -434,7 +472,8 @@ Theorem C09_repr_dec_value : forall (n : N) (k : nat), exists i fp,
 Proof. exact tx_repr_dec_value. Qed.
 Print Assumptions C09_repr_dec_value.
 
-(** the parsed volume field of an R record with a dyadic float volume has the value of the volume ... *)
+(** the parsed volume field of an R record with a dyadic float volume has the value of the volume
+    (model's text; FLOAT PRINTER CAVEAT above) ... *)
 Theorem C09_roundtrip_R_float : forall (f : rfields) (q : Q) (k : nat), r_nosep f -> r_nonneg f ->
   r_volume f = PyF q -> (0 <= q)%Q -> Npos (Qden (Qred q)) = (2 ^ N.of_nat k)%N ->
   exists p i fp, parse_record (render (RR f)) = Some (PR p) /\
@@ -532,7 +571,8 @@ Proof. exact rc_reagent_end_to_end. Qed.
 Print Assumptions C09_reagent_end_to_end.
 
 (** method call with a (dyadic) float volume -> record -> text -> parser -> the VALUE of the volume field is
-    the volume given *)
+    the volume given (model's text = library's text when the exact expansion of the float has at most 15
+    significant digits: FLOAT PRINTER CAVEAT in the header and above C09_decimal_value) *)
 Theorem C09_reagent_float_end_to_end : forall w a w' (q : Q) (k : nat),
   reagent_distribution w a = (w', None) ->
   rd_volume a = RVFloat (XQ q) -> Npos (Qden (Qred q)) = (2 ^ N.of_nat k)%N ->
@@ -584,6 +624,51 @@ Theorem C09_distribute_grammar : forall s ks kd dwells a s' e,
   distribute s ks kd dwells a = (s', e) -> appends_parsable (st_wl s) (st_wl s').
 Proof. exact distribute_parsable. Qed.
 Print Assumptions C09_distribute_grammar.
+
+(** PROGRAM LEVEL (REVIEW2 N3).  Every record appended by ANY sequence of worklist operations ([wl_op]:
+    aspirate / dispense / transfer / distribute, comment, wash, decontaminate, flush, commit, set_diti), whatever
+    the arguments and whether or not the individual calls raise, is read by the independent record parser *)
+Theorem C09_grammar_run : forall ops s, forallb wl_op ops = true ->
+  appends_parsable (st_wl s) (st_wl (fst (run s ops))).
+Proof. exact run_parsable. Qed.
+Print Assumptions C09_grammar_run.
+
+(** ... so, starting from an empty worklist, every record of the worklist after the program *)
+Theorem C09_grammar_run_empty : forall ops s, w_recs (st_wl s) = [] -> forallb wl_op ops = true ->
+  Forall parsable (w_recs (st_wl (fst (run s ops)))).
+Proof. exact run_parsable_empty. Qed.
+Print Assumptions C09_grammar_run_empty.
+
+(** ALL operations of [Program.op], including the record-level methods (aspirate_well, dispense_well,
+    reagent_distribution), the labware-only calls (add / remove / condense_log append nothing) and the EVOware
+    script commands of EvoWorklist (evo_aspirate / evo_dispense / evo_wash).  A script command "B;Aspirate(...);"
+    is NOT a line of the record grammar (three ';'-fields, C09_example_cmd_not_record): the [RCmd] records are
+    covered by the independent textual command parsers [parse_cmd] / [parse_wash] of Spec/CmdParse.v (property
+    C13), under C13's hypothesis that the liquid class of the command contains neither a comma nor a double
+    quote ([evo_command] itself only rejects ';'). *)
+Definition in_grammar (r : srec) : Prop :=
+  parsable r \/
+  exists text, r = RCmd text /\ (parse_cmd text <> None \/ parse_wash text <> None).
+
+Definition cmd_clean (o : op) : Prop :=
+  match o with
+  | OEvoAsp _ a _ | OEvoDisp _ a _ _ =>
+      match c_liquid_class a with
+      | PStr lc => contains_char ","%char lc = false /\ contains_char """"%char lc = false
+      | PNotStr => True
+      end
+  | _ => True
+  end.
+
+Theorem C09_grammar_run_any : forall ops s, Forall cmd_clean ops ->
+  exists rs, w_recs (st_wl (fst (run s ops))) = (w_recs (st_wl s) ++ rs)%list /\ Forall in_grammar rs.
+Proof. exact run_grammar. Qed.
+Print Assumptions C09_grammar_run_any.
+
+Theorem C09_grammar_run_any_empty : forall ops s, w_recs (st_wl s) = [] -> Forall cmd_clean ops ->
+  Forall in_grammar (w_recs (st_wl (fst (run s ops)))).
+Proof. exact run_grammar_empty. Qed.
+Print Assumptions C09_grammar_run_any_empty.
 
 (** an accepted [distribute]: comment records, then the R record, which parses back to the arguments passed
     through (labware names, ids, types, volume, liquid class, DiTi reuse, direction; the multi-dispense count
@@ -721,7 +806,7 @@ Example C09_example_R :
                  pr_direction := true; pr_exclude := [5; 9; 17]%N |})].
 Proof. vm_compute. repeat split. Qed.
 
-(** a float volume is written as Python's repr *)
+(** a float volume is written as its exact expansion (= Python's repr here; FLOAT PRINTER CAVEAT in the header) *)
 Example C09_example_R_float :
   render_pynum (PyF (25 # 2)) = "12.5" /\ parse_decimal "12.5" = Some (12%N, "5") /\
   parse_decimal (render_pynum (PyI 50)) = Some (50%N, "").
@@ -822,3 +907,42 @@ Example C09_example_linebreak :
   | Err _ => False
   end.
 Proof. vm_compute. repeat split. Qed.
+
+(** program level: a comment, evo_aspirate with a label, evo_dispense, evo_wash, aspirate_well, a labware-only
+    add, a rejected set_diti on the example state of C01 ([ex_state Evo]); six records; the script commands are
+    read by [parse_cmd] / [parse_wash] and by them only, the other records by [parse_record] *)
+Definition ex_cmd : cmdargs :=
+  {| c_wells := A1 ["A01"; "B01"]; c_grid := PInt 10; c_site := PInt 1; c_volume := CVScalar (PV (XQ 10));
+     c_liquid_class := PStr "Water"; c_tips := [TInt 1; TInt 2]; c_arm := 0 |}.
+Definition ex_wash : washargs :=
+  {| wa_tips := [TInt 1; TInt 2]; wa_waste_grid := PInt 1; wa_waste_site := PInt 2; wa_cleaner_grid := PInt 1;
+     wa_cleaner_site := PInt 1; wa_arm := 0; wa_waste_vol := FI_float (XQ 3); wa_waste_delay := PInt 500;
+     wa_cleaner_vol := FI_int 4; wa_cleaner_delay := PInt 500; wa_airgap := PInt 10; wa_airgap_speed := PInt 70;
+     wa_retract_speed := PInt 30; wa_fastwash := PInt 1; wa_low_volume := PInt 0 |}.
+Definition ex_prog_any : list op :=
+  [OComment (Some "start"); OEvoAsp 0 ex_cmd (Some "asp"); OEvoDisp 0 ex_cmd None None; OEvoWash ex_wash;
+   OAspWell ex_args; OAdd 0 (A1 ["A01"]) (A0 (XQ 5)) None None; OSetDiti (-1)].
+
+Example C09_example_run_any_hyps : Forall cmd_clean ex_prog_any /\ forallb wl_op ex_prog_any = false.
+Proof. split; [repeat constructor|reflexivity]. Qed.
+
+Example C09_example_run_any :
+  let r := run (ex_state Evo) ex_prog_any in
+  snd r = [None; None; None; None; None; None; Some EReject] /\
+  map render (w_recs (st_wl (fst r))) =
+    ["C;start"; "C;asp";
+     "B;Aspirate(3,""Water"",""10.0"",""10.0"",0,0,0,0,0,0,0,0,0,0,10,0,1,""02023"",0,0);";
+     "B;Dispense(3,""Water"",""10.0"",""10.0"",0,0,0,0,0,0,0,0,0,0,10,0,1,""02023"",0,0);";
+     "B;Wash(3,1,1,1,0,""3.0"",500,""4"",500,10,70,30,1,0,1000,0);";
+     "A;Plate 1;ID7;96 Well;13;T5;12.34;Water free;;5;Forced"] /\
+  map (fun r0 => match parse_record (render r0) with Some _ => true | None => false end)
+      (w_recs (st_wl (fst r))) = [true; true; false; false; false; true] /\
+  map (fun r0 => match parse_cmd (render r0), parse_wash (render r0) with
+                 | Some _, _ => 1 | None, Some _ => 2 | None, None => 0 end%nat)
+      (w_recs (st_wl (fst r))) = [0; 0; 1; 1; 2; 0]%nat.
+Proof. vm_compute. repeat split. Qed.
+
+Example C09_example_cmd_not_record :
+  parse_record "B;Wash(3,1,1,1,0,""3.0"",500,""4"",500,10,70,30,1,0,1000,0);" = None /\
+  parse_record "B;" = Some PB.
+Proof. vm_compute. split; reflexivity. Qed.
